@@ -105,6 +105,18 @@ type MapEntry struct {
 	Present *Term // bool
 }
 
+// SparseArr is an array of symbolic length whose elements are a default value overlaid with
+// a short list of stores (used for make() with a symbolic size when vp.SparseAlloc is on).
+type SparseArr struct {
+	Default Value
+	Stores  []SparseStore
+}
+
+type SparseStore struct {
+	Idx *Term
+	Val Value
+}
+
 type Tuple []Value
 
 type Opaque struct {
